@@ -43,6 +43,12 @@ static CMB_THREAD_LOCAL double sim_time = 0.0;
  */
 static CMB_THREAD_LOCAL struct cmi_hashheap *event_queue = NULL;
 
+/*
+ * current_event - The handle of the most recently dequeued event. Kept apart
+ * from the heap's working slot, which other heap operations may overwrite.
+ */
+static CMB_THREAD_LOCAL uint64_t current_event = 0u;
+
 /* The initial capacity of the heap is 2^QUEUE_INIT_EXP items, resizing as needed */
 #define QUEUE_INIT_EXP 3
 
@@ -106,6 +112,7 @@ static bool heap_order_check(const struct cmi_heap_tag *a,
 void cmb_event_queue_initialize(const double start_time)
 {
     sim_time = start_time;
+    current_event = 0u;
 
     event_queue = cmi_hashheap_create();
     cmi_hashheap_initialize(event_queue, QUEUE_INIT_EXP, heap_order_check);
@@ -270,6 +277,7 @@ bool cmb_event_execute_next(void)
     const double new_time = event_queue->heap[0].dsortkey;
     cmb_assert_debug(new_time >= sim_time);
     sim_time = new_time;
+    current_event = event_queue->heap[0].key;
 
     /* Schedule wakeup events for any processes waiting for this to happen */
     if (!cmi_slist_is_empty(&(tmp->waiters))) {
@@ -306,7 +314,7 @@ uint64_t cmb_event_current(void)
     cmb_assert_release(event_queue != NULL);
     cmb_assert_debug(event_queue->heap != NULL);
 
-    return event_queue->heap[0].key;
+    return current_event;
 }
 
 /*
